@@ -3,7 +3,7 @@
    /repo on every run by srcfacts/golite.go) under the interpreter of Base/GoLite.v.  [fn t] is the
    translated function, or a function that panics at once when the translator refused it. *)
 From Coq Require Import String.
-From Radius Require Import Base.Bytes Base.Res Base.GoLite Gen.Src Model.SrcRun Proofs.SrcBase Proofs.SrcCtx Model.Attrs Spec.C01 Proofs.SrcAttrs Proofs.SrcParse.
+From Radius Require Import Base.Bytes Base.Res Base.GoLite Gen.Src Model.SrcRun Proofs.SrcBase Proofs.SrcCtx Model.Attrs Spec.C01 Proofs.SrcDefs Proofs.SrcParse.
 Open Scope list_scope.
 Open Scope nat_scope.
 
@@ -18,3 +18,10 @@ Theorem C02_program_ParseAttributes_total : forall fuel b,
   exists v, src_run "ParseAttributes" fuel [VBytes b] = Some (Some v).
 Proof. exact program_ParseAttributes_total. Qed.
 Print Assumptions C02_program_ParseAttributes_total.
+
+(* non-vacuity: garbage and a truncated datagram are answered with an error, not a panic *)
+Example C02_src_example :
+  src_run "Parse" 100 [VBytes [1; 2; 3]%N; VNil] = Some (Some (VTup [VNil; VErr])) /\
+  src_run "Parse" 100 [VBytes ([1; 7; 0; 25]%N ++ repeat 9%N 16 ++ [1; 200; 1; 2; 3]%N); VNil] = Some (Some (VTup [VNil; VErr])) /\
+  src_run "ParseAttributes" 100 [VBytes [1; 1]%N] = Some (Some (VTup [VNil; VErr])).
+Proof. repeat split; vm_compute; reflexivity. Qed.
